@@ -328,8 +328,83 @@ func runC09(c *core.Case) *core.Result {
 			return res
 		}
 	}
+	if sh.typ == "doc" {
+		if res := nestedFailedTransaction(c, h, R); res != nil {
+			return res
+		}
+	}
 	c.Count("histories_"+sh.typ, 1)
 	return c.Held()
+}
+
+// nestedFailedTransaction: inside the body of a transaction on the document, a transaction is
+// started on a child handle and its body returns an error, which the enclosing body handles.
+// Whatever becomes of the enclosing transaction (the implementation may abort it as a whole),
+// nothing the FAILED transaction wrote may stay readable or pending on the replica, nor become
+// readable on another replica.
+func nestedFailedTransaction(c *core.Case, h *crdt.Hist, R *crdt.Rep) *core.Result {
+	doc := R.DT.(orda.Document)
+	tag := h.G.Tag() + "-nested"
+	outerFails := c.Rng.Intn(3) == 0
+	var innerErr error
+	c.Step("r0 transaction with a failing transaction nested on a child handle (outer fails too: %v)", outerFails)
+	pm := safely(func() {
+		doc.Transaction("outer", func(tx orda.DocumentInTx) error {
+			if _, err := tx.PutToObject("nest", map[string]interface{}{"keep": tag + "-outer"}); err != nil {
+				return err
+			}
+			child, err := tx.GetFromObject("nest")
+			if err != nil || child == nil {
+				return errBoom
+			}
+			innerErr = child.Transaction("inner", func(_ orda.DocumentInTx) error {
+				child.PutToObject("lost", tag+"-inner")
+				child.DeleteInObject("keep")
+				return errBoom
+			})
+			tx.PutToObject("after", tag+"-after")
+			if outerFails {
+				return errBoom
+			}
+			return nil
+		})
+	})
+	if pm != "" {
+		return c.Violation("doc:panic:nested-tx", "a failing transaction nested inside a transaction body panicked: %s", pm)
+	}
+	if innerErr == nil {
+		return c.Violation("doc:nested-tx-no-error", "a nested transaction whose body returned an error reported success")
+	}
+	leaked := func(what, text string) *core.Result {
+		if strings.Contains(text, tag+"-inner") {
+			return c.Violation("doc:failed-nested-tx-visible", "%s shows a value written by the failed nested transaction: %s", what, clip(text, 600))
+		}
+		return nil
+	}
+	if res := leaked("replica r0", R.View()); res != nil {
+		return res
+	}
+	for _, op := range R.Pending()[R.Sent:] {
+		if res := leaked("a pending operation of r0", string(op.Body)); res != nil {
+			return res
+		}
+	}
+	if strings.Contains(R.View(), tag+"-outer") && !strings.Contains(R.View(), `"keep"`) {
+		return c.Violation("doc:failed-nested-tx-visible", "the enclosing transaction's object is readable without the member the failed nested transaction deleted: %s", clip(R.View(), 600))
+	}
+	if sig, msg := h.Quiesce(); sig != "" {
+		return c.Violation("doc:"+sig, "%s", msg)
+	}
+	for _, rep := range h.Reps {
+		if res := leaked(fmt.Sprintf("replica r%d", rep.Idx), rep.View()); res != nil {
+			return res
+		}
+	}
+	if sig, msg := h.CompareAll(); sig != "" {
+		return c.Violation("doc:"+sig+"-after-nested-tx", "%s", msg)
+	}
+	c.Count("nested_failed_transactions", 1)
+	return nil
 }
 
 // remoteAtomicity delivers an intact unit and malformed variants to replicas that hold
